@@ -6,16 +6,16 @@ import std
 SPEC = {
     'prop_files': ['theories/Properties/W_json.v'],
     'coq_targets': ['theories/Properties/W_json.vo', 'theories/Wire/JsonCorr.vo', 'theories/Properties/C09_doc.vo'],
-    'closure_dirs': ['theories/Wire/Json.v', 'theories/Wire/JsonProofs.v', 'theories/Wire/JsonRT.v', 'theories/Wire/JsonDepth.v', 'theories/Wire/JsonTotal.v', 'theories/Wire/JsonSkip.v', 'theories/Wire/JsonLeaf.v', 'theories/Wire/JsonDoc.v', 'theories/Wire/JsonDocProofs.v', 'theories/Wire/JsonCorr.v',
+    'closure_dirs': ['theories/Wire/Json.v', 'theories/Wire/JsonProofs.v', 'theories/Wire/JsonRT.v', 'theories/Wire/JsonDepth.v', 'theories/Wire/JsonTotal.v', 'theories/Wire/JsonSkip.v', 'theories/Wire/JsonLeaf.v', 'theories/Wire/JsonDoc.v', 'theories/Wire/JsonDocProofs.v', 'theories/Wire/JsonAccept.v', 'theories/Wire/JsonCorr.v',
                      'theories/Wire/Item.v', 'theories/Base/Outcome.v', 'theories/Gen/Consts.v',
                      'theories/C09/Spec.v', 'theories/C09/Model.v', 'theories/C09/ProofsStr.v', 'theories/C09/ProofsNum.v',
-                     'theories/C09/ProofsQuote.v', 'theories/C09/ProofsUint.v', 'theories/C09/ProofsParse.v'],
+                     'theories/C09/ProofsQuote.v', 'theories/C09/ProofsUint.v', 'theories/C09/ProofsParse.v', 'theories/C09/ProofsRead.v'],
     'harness': 'wirejson',
     'args': {
-        'quick': ['-enc', 300, '-valid', 150, '-mut', 300, '-rand', 200],
-        'thorough': ['-enc', 4000, '-valid', 1500, '-mut', 4000, '-rand', 3000],
+        'quick': ['-enc', 300, '-valid', 150, '-hand', 120, '-mut', 300, '-rand', 200],
+        'thorough': ['-enc', 4000, '-valid', 1500, '-hand', 3000, '-mut', 4000, '-rand', 3000],
     },
-    'search_args': ['-enc', 1500, '-valid', 600, '-mut', 2000, '-rand', 1500, '-nodeep'],
+    'search_args': ['-enc', 1500, '-valid', 600, '-hand', 1000, '-mut', 2000, '-rand', 1500, '-nodeep'],
     'assumptions': [
         'the model Wire/Json.v (enc, dec/dec_naked/decode1/dec_seq, nvb/skip/raw) is hand written from json.go, json.base.go, reader.go (bytesDecReader json helpers), decode.go (decodeValue, kInterfaceNaked, kMap) and the fast paths DecSliceIntfY / DecMapStringIntfL; it is tied to the code by running both on the same inputs on every run (vm_compute): encoder bytes byte-for-byte, per Decode call outcome class + canonical tree + NumBytesRead, per nextValueBytes call outcome class + NumBytesRead + captured bytes, sequences of calls on one Decoder',
         'lexical leaves are a parameter (record leaf). Strings and integers are the C09 model definitions (C09/Model.v quote_body, dq_scan/dq_loop, enc_uint_loop, parseUint64_simple); their laws (quote then unquote = utf8_sanitise, plain literals, the skip scanner ends at the closing quote, digits parse back, string decoder totality) are PROVED in Wire/JsonLeaf.v from the C09 theorems. What remains a hypothesis of the round-trip theorems is float_time_laws about the oracle: strconv shortest float text consists of number characters and is accepted back by parseNumber/parseFloat64, integer texts are accepted by parseFloat64 under PreferFloat, the RFC3339Nano text has no quote or backslash; in the correspondence these texts are tables observed by the harness',
